@@ -18,7 +18,7 @@ Require Import ZArith QArith List.
 Require Import BFL.Ops BFL.ListOps BFL.C03_Model.
 From mathcomp Require Import all_ssreflect all_algebra.
 Require Import BFL.MxOps BFL.LinAlg BFL.C03_Proofs BFL.C03_Circular.
-Import GRing.Theory Num.Theory.
+Import Order.Theory GRing.Theory Num.Theory.
 Local Open Scope ring_scope.
 
 Section C03.
@@ -41,22 +41,20 @@ Theorem C03_weights_shape (n : nat) (alpha beta kappa : F) :
       w_c (ut_weights (O:=O) n alpha beta kappa) = alpha * alpha * (n%:R + kappa)].
 Proof. exact: ut_weights_shape. Qed.
 
-Variable sqrt_contract : forall x : F, 0 <= x -> t_sqrt tr x * t_sqrt tr x = x.
-Variable sq_contract : forall n (P : 'M[F]_n), psd P -> sq n P *m (sq n P)^T = P.
-
 (* sigma points: 2d+1 of them, the first is the mean, and under the weights they
    reproduce the mean and the covariance they were drawn from *)
 Theorem C03_sigma_moments_linear (L : layout) (d : nat) (alpha beta kappa : F)
         (m : 'cV[F]_d) (P : 'M[F]_d) :
-  linear_layout L d -> psd P ->
+  linear_layout L d ->
   let w := ut_weights (O:=O) d alpha beta kappa in
-  0 < w_c w ->
+  w_c w != 0 -> t_sqrt tr (w_c w) * t_sqrt tr (w_c w) = w_c w ->
+  sq d P *m (sq d P)^T = P ->
   let Xs := sigma_comp (O:=O) L d d (w_c w) m P in
   [/\ length Xs = Nat.add (Nat.mul 2 d) 1,
       forall x, List.nth 0 Xs x = m,
       wsum (O:=O) (w_mean w) Xs = m &
       wouter (O:=O) (w_cov w) (List.map (fun x => x - m) Xs) (List.map (fun x => x - m) Xs) = P].
-Proof. by move=> HL pP w cp; exact: sigma_moments_linear. Qed.
+Proof. by move=> HL w cp sc fo; exact: sigma_moments_linear. Qed.
 
 (* exactness on affine maps, whole mixture, generic overload: mean A m + b,
    covariance A P A^T, cross-covariance = the non-noise rows of P A^T; the output
@@ -64,59 +62,62 @@ Proof. by move=> HL pP w cp; exact: sigma_moments_linear. Qed.
 Theorem C03_affine_exact (Lin Lout : layout) (d dx p : nat) (alpha beta kappa : F)
         (A : 'M[F]_(p,d)) (b : 'cV[F]_p) (comps : list ('cV[F]_d * 'M[F]_d)) :
   linear_layout Lin d -> l_lin Lin = dx -> l_lin Lout = p ->
-  (forall mc, In mc comps -> psd mc.2) ->
   let w := ut_weights (O:=O) d alpha beta kappa in
-  0 < w_c w ->
+  w_c w != 0 -> t_sqrt tr (w_c w) * t_sqrt tr (w_c w) = w_c w ->
+  (forall mc, In mc comps -> sq d mc.2 *m (sq d mc.2)^T = mc.2) ->
   ut_generic (O:=O) Lin Lout p dx w comps (fun X => Some (affine_cols (O:=O) A b X)) =
   Some (mkUtResult (O:=O)
           (List.map (fun mc => mkUtComp (O:=O) (A *m mc.1 + b : 'cV[F]_p) (A *m mc.2 *m A^T + 0)
                                         (sel F d dx *m mc.2 *m A^T)) comps)
           (repeat (1 / (length comps)%:R) (length comps))).
-Proof. by move=> HL Hdx HLo Hp w cp; exact: ut_generic_affine. Qed.
+Proof. by move=> HL Hdx HLo w cp sc fo; exact: ut_generic_affine. Qed.
 
-(* the StateModel and MeasurementModel overloads are the generic one *)
+(* the StateModel and MeasurementModel overloads are the generic one; the two StateModel
+   overloads (this one and the additive one below) have no failure path: their wrapped
+   function always reports success and the caller discards the validity flag *)
 Theorem C03_affine_exact_models (Lin Lout : layout) (d dx p : nat) (alpha beta kappa : F)
         (A : 'M[F]_(p,d)) (b : 'cV[F]_p) (comps : list ('cV[F]_d * 'M[F]_d)) :
   linear_layout Lin d -> l_lin Lin = dx -> l_lin Lout = p ->
-  (forall mc, In mc comps -> psd mc.2) ->
   let w := ut_weights (O:=O) d alpha beta kappa in
-  0 < w_c w ->
+  w_c w != 0 -> t_sqrt tr (w_c w) * t_sqrt tr (w_c w) = w_c w ->
+  (forall mc, In mc comps -> sq d mc.2 *m (sq d mc.2)^T = mc.2) ->
   let r := mkUtResult (O:=O) (List.map (affine_image tr sq eg dx A b 0) comps)
                       (repeat (1 / (length comps)%:R) (length comps)) in
   ut_state (O:=O) Lin Lout p dx w comps (affine_cols (O:=O) A b) = r /\
   ut_meas (O:=O) Lin Lout p dx w comps (fun X => Some (affine_cols (O:=O) A b X)) = Some r.
-Proof. by move=> HL Hdx HLo Hp w cp; exact: ut_models_affine. Qed.
+Proof. by move=> HL Hdx HLo w cp sc fo; exact: ut_models_affine. Qed.
 
 (* additive overloads: the noise covariance is added once to every component *)
 Theorem C03_affine_exact_additive (Lin Lout : layout) (d dx p : nat) (alpha beta kappa : F)
         (A : 'M[F]_(p,d)) (b : 'cV[F]_p) (N : 'M[F]_p) (comps : list ('cV[F]_d * 'M[F]_d)) :
   linear_layout Lin d -> l_lin Lin = dx -> l_lin Lout = p ->
-  (forall mc, In mc comps -> psd mc.2) ->
   let w := ut_weights (O:=O) d alpha beta kappa in
-  0 < w_c w ->
+  w_c w != 0 -> t_sqrt tr (w_c w) * t_sqrt tr (w_c w) = w_c w ->
+  (forall mc, In mc comps -> sq d mc.2 *m (sq d mc.2)^T = mc.2) ->
   let r := mkUtResult (O:=O)
              (List.map (fun mc => mkUtComp (O:=O) (A *m mc.1 + b : 'cV[F]_p) (A *m mc.2 *m A^T + N)
                                            (sel F d dx *m mc.2 *m A^T)) comps)
              (repeat (1 / (length comps)%:R) (length comps)) in
   ut_additive_state (O:=O) Lin Lout p dx w comps (affine_cols (O:=O) A b) N = r /\
   ut_additive_meas (O:=O) Lin Lout p dx w comps (fun X => Some (affine_cols (O:=O) A b X)) N = Some r.
-Proof. by move=> HL Hdx HLo Hp w cp; exact: ut_additive_affine. Qed.
+Proof. by move=> HL Hdx HLo w cp sc fo; exact: ut_additive_affine. Qed.
 
 (* augmented variant: belief augmented with the noise statistics, f [x; w] = A x + B w + b *)
 Theorem C03_affine_exact_augmented (Lin Lout : layout) (n q p : nat) (alpha beta kappa : F)
         (A : 'M[F]_(p,n)) (B : 'M[F]_(p,q)) (b : 'cV[F]_p) (Q : 'M[F]_q)
         (comps : list ('cV[F]_n * 'M[F]_n)) :
   linear_layout Lin (n + q) -> l_lin Lin = n -> l_lin Lout = p ->
-  psd Q -> (forall mc, In mc comps -> psd mc.2) ->
   let w := ut_weights (O:=O) (n + q) alpha beta kappa in
-  0 < w_c w ->
+  w_c w != 0 -> t_sqrt tr (w_c w) * t_sqrt tr (w_c w) = w_c w ->
+  (forall mc, In mc comps ->
+     sq (n + q) (block_mx mc.2 0 0 Q) *m (sq (n + q) (block_mx mc.2 0 0 Q))^T = block_mx mc.2 0 0 Q) ->
   ut_generic (O:=O) Lin Lout p n w (List.map (augment_comp (O:=O) Q) comps)
              (fun X => Some (affine_cols (O:=O) (row_mx A B) b X)) =
   Some (mkUtResult (O:=O)
           (List.map (fun mc => mkUtComp (O:=O) (A *m mc.1 + b : 'cV[F]_p)
                                         (A *m mc.2 *m A^T + B *m Q *m B^T + 0) (mc.2 *m A^T)) comps)
           (repeat (1 / (length comps)%:R) (length comps))).
-Proof. by move=> HL Hn HLo pQ Hp w cp; exact: ut_generic_affine_augmented. Qed.
+Proof. by move=> HL Hn HLo w cp sc fo; exact: ut_generic_affine_augmented. Qed.
 
 (* every layout (Euler-circular rows, quaternion blocks, noise rows), every dimension and
    covariance, whatever the square-root oracle returns: the first sigma point of a
@@ -157,10 +158,43 @@ Example C03_layout_premise (n q : nat) :
   linear_layout L (n + q) /\ l_dim L = (n + q)%N /\ l_dcov L = (n + q)%N /\ l_dx L = n /\ l_lin L = n.
 Proof. by []. Qed.
 
-(* ... the weight premise holds for alpha = 1, kappa = 0: c = n *)
+(* ... the oracle premises follow from the usual contracts (c > 0 and a square root that
+   is one on non-negative arguments; a PSD covariance and a factor oracle that is one on
+   PSD matrices) — here for alpha = 1, kappa = 0, where c = n + 1 *)
 Example C03_weight_premise (F : realFieldType) (tr : Transc F) sq eg (n : nat) (beta : F) :
-  0 < w_c (ut_weights (O:=MxMat tr sq eg) n.+1 1 beta 0).
-Proof. by rewrite ut_weights_c ut_weights_c_alt !mul1r addr0 ltr0n. Qed.
+  (forall x : F, 0 <= x -> t_sqrt tr x * t_sqrt tr x = x) ->
+  let w := ut_weights (O:=MxMat tr sq eg) n.+1 1 beta 0 in
+  w_c w != 0 /\ t_sqrt tr (w_c w) * t_sqrt tr (w_c w) = w_c w.
+Proof.
+move=> Hs w; have cp : 0 < w_c w by rewrite ut_weights_c ut_weights_c_alt !mul1r addr0 ltr0n.
+by split; [rewrite gt_eqF | apply: Hs; apply: ltW].
+Qed.
+
+(* ... and they are satisfiable at the MathComp instance itself, over the rationals, with
+   an explicit exact factor: d = 2, alpha = 1, kappa = 2 (c = 4, sqrt c = 2), covariance
+   P = 4 I with factor 2 I; the theorem then yields the closed form for y = A x + b *)
+Definition rat_tr : Transc [realFieldType of rat] :=
+  @mkTransc [realFieldType of rat] (fun x => if x == 4%:R then 2%:R else 0) id id id id id (fun y _ => y) 3%:R 0.
+Definition rat_sq (n : nat) (P : 'M[rat]_n) : 'M[rat]_n := 2%:R%:M.
+Definition rat_eg (n : nat) (P : 'M[rat]_n) : 'M[rat]_(n,1) := 0.
+Example C03_premises_rat (A : 'M[rat]_(1,2)) (b m : 'cV[rat]_1) (x : 'cV[rat]_2) :
+  let O := MxMat rat_tr rat_sq rat_eg in
+  let L := mkLayout 2 0 false 0 in
+  let w := ut_weights (O:=O) 2 1 0 2%:R in
+  ut_generic (O:=O) L (mkLayout 1 0 false 0) 1 2 w [:: (x, 4%:R%:M)]
+             (fun X => Some (affine_cols (O:=O) A b X)) =
+  Some (mkUtResult (O:=O)
+          [:: mkUtComp (O:=O) (A *m x + b : 'cV[rat]_1) (A *m 4%:R%:M *m A^T + 0) (sel rat 2 2 *m 4%:R%:M *m A^T)]
+          (repeat (1 / 1%:R) 1)).
+Proof.
+move=> O L w.
+have Hc : w_c w = 4%:R by rewrite ut_weights_c ut_weights_c_alt !mul1r -natrD.
+apply: (@C03_affine_exact rat rat_tr rat_sq rat_eg L (mkLayout 1 0 false 0) 2 2 1 1 0 2%:R A b [:: (x, 4%:R%:M)]) => //.
+- by rewrite -/w Hc.
+- by rewrite -/w Hc /= eqxx -natrM.
+- move=> mc [<-|[]] /=; rewrite /rat_sq tr_scalar_mx -scalar_mxM -natrM.
+  by [].
+Qed.
 
 (* ... and the executable instance of the same model, run over exact rationals
    with a square-root oracle returning an exact factor (P = A A^T, A = [[2,0],[1,1]],
